@@ -7,4 +7,4 @@ export GOFLAGS=-mod=mod GOPROXY=off GOSUMDB=off GOTOOLCHAIN=local
 VERIF_INFO_DIR=$R/info $R/bin/driver run $R/jobs.sexp $R/cases.sexp 2>/dev/null
 /verif/bin/modelrun $R/programs.sexp $R/cases.sexp,$R/text.sexp $R/model.out
 tail -1 $R/model.out
-/verif/bin/vh eval --run $R; cat $R/cases.sexp $R/eval.sexp > $R/all.sexp; grep -c "^(corr .* 0 " $R/eval.sexp; python3 /verif/harness/oracle_summary.py $R/all.sexp ${W:-100} | cut -c1-${CUT:-220}
+/verif/bin/vh eval --run $R; cat $R/cases.sexp $R/eval.sexp > $R/all.sexp; grep -c "^(corr \"[^\"]*\" 0 " $R/eval.sexp; python3 /verif/harness/oracle_summary.py $R/all.sexp ${W:-100} | cut -c1-${CUT:-220}
